@@ -227,7 +227,14 @@ fn check(c: &Case) -> CaseResult {
     let all = build_entries(c)?;
     directory::valid(&all).map_err(|e| Fail::new("C06/harness", format!("steering produced an invalid list: {e}")))?;
     let lib_entries: Vec<pmtiles2::Entry> = all.iter().map(|e| pmtiles2::Entry { tile_id: e.id, offset: e.off, length: e.len, run_length: e.run }).collect();
-    let strat = Some(WriteDirsOverflowStrategy::OnlyLeafPointers { start_size: c.start.map(|s| s as usize) });
+    // (the two largest u32 recipes stand for the two largest usize values)
+    let strat = Some(WriteDirsOverflowStrategy::OnlyLeafPointers {
+        start_size: c.start.map(|s| match s {
+            u32::MAX => usize::MAX,
+            s if s == u32::MAX - 1 => usize::MAX - 1,
+            s => s as usize,
+        }),
+    });
     let lc = codec::to_lib(c.codec);
     let pos0 = c.pos0 as usize;
     let prefill = vec![0x5Au8; pos0];
@@ -276,6 +283,7 @@ fn check(c: &Case) -> CaseResult {
         .label(c.start == Some(1), "start-size-1")
         .label(c.start.is_none(), "start-size-default")
         .label(c.start.map_or(false, |s| s as usize > all.len()), "start-size>list")
+        .label(c.start.map_or(false, |s| s >= u32::MAX - 1), "start-size-usize-max")
         .label(c.pos0 > 0, "non-zero-start-position")
         .label(c.asyncw, "async")
         .label(!c.asyncw, "sync")
@@ -315,7 +323,7 @@ fn strategy() -> impl Strategy<Value = Case> {
         2 => (1u32..16_000),
         1 => (16_500u32..60_000),
     ];
-    let start = prop_oneof![3 => Just(None), 1 => Just(Some(1u32)), 1 => Just(Some(2u32)), 1 => Just(Some(7u32)), 1 => Just(Some(4096u32)), 1 => Just(Some(1_000_000u32)), 1 => (1u32..3000).prop_map(Some)];
+    let start = prop_oneof![3 => Just(None), 1 => Just(Some(1u32)), 1 => Just(Some(2u32)), 1 => Just(Some(7u32)), 1 => Just(Some(4096u32)), 1 => Just(Some(1_000_000u32)), 1 => (1u32..3000).prop_map(Some), 1 => prop_oneof![Just(Some(u32::MAX)), Just(Some(u32::MAX - 1)), Just(Some(u32::MAX - 2)), Just(Some(1u32 << 31))]];
     (any::<u64>(), target, prop_oneof![3 => Just(1u8), 2 => Just(2u8), 1 => Just(3u8), 2 => Just(4u8)], start, any::<bool>(), prop_oneof![2 => Just(0u32), 1 => 1u32..5000])
         .prop_map(|(seed, target, codec, start, asyncw, pos0)| {
             // start size 1 on a big list means one codec stream per entry and many doubling rounds: keep those lists moderate
@@ -328,7 +336,7 @@ pub fn run(ctx: &Ctx) {
     ctx.rec.set_rule(
         "entry lists size-steered so that the single-root encoding lands on 16255..16259 and 16382..16386 bytes (uncompressed: exactly, by choosing varint widths; codecs: by \
          bisecting the number of high-entropy entries with the library's encoder as the measuring device and nudging the last entry) and far on both sides, plus lists of up to \
-         10^5 entries by count x 4 compressions x initial leaf size {default, 1, 2, 7, 4096, > list, random} x sync/async x stream starting position 0 / non-zero, through \
+         10^5 entries by count x 4 compressions x initial leaf size {default, 1, 2, 7, 4096, > list, random, 2^31, 2^32-3, usize::MAX-1, usize::MAX} x sync/async x stream starting position 0 / non-zero, through \
          util::write_directories(_async); and whole-archive writes of fixed-seed recipes around the spill threshold. Oracle: root <= 16257 bytes; no spill => root decodes to the \
          whole list; spill => it was necessary (library's own single-directory encoding > 16257), root has only pointers, each pointer's byte range lies inside the returned leaf \
          section, ranges are disjoint, each range decodes as exactly one directory with nothing left over, pointer id = first id of its leaf, leaves concatenate to the original \
